@@ -20,13 +20,13 @@ import (
 
 // ---- universe ------------------------------------------------------------------------------------
 
-const nVals = 4
+const nVals = 6
 
 var (
 	accIDs  = []int{256, 257, 258, 259, 260, 3} // 3 = the RIPEMD precompile address journal.dirty() special-cases
 	keyIDs  = []int{1, 2, 3}
 	hashIDs = []int{1, 2, 3}
-	valIDs  = []int{1000, 1001, 1002, 1003}
+	valIDs  = []int{1000, 1001, 1002, 1003, 1004, 1005}
 
 	valPubs  [][]byte
 	valAddrs []common.Address
@@ -375,6 +375,30 @@ func (g *goSide) dump() (out string) {
 	return fmt.Sprintf("A %s | refund %d | logs %s | logSize %d | pre %s | dirt %s | V %s | idx %s | stat %s | q %s | vdirt %s | lens %d %d %d %d",
 		strings.Join(accs, " "), st.GetRefund(), strings.Join(logs, " "), st.VerifC09LogSize(), strings.Join(pre, " "), strings.Join(dirt, " "),
 		strings.Join(vals, " "), strings.Join(idx, ","), showStat(stat), showQueue(st.GetWithdrawQueue()), strings.Join(vdirt, " "), r, vr, j, vj)
+}
+
+// delegationsView renders GetDelegationsFrom (the public view of a delegator's list, which cross-checks every entry
+// against the validator's record) for every account: BY VALUE, validators in list order, or the error text.
+func (g *goSide) delegationsView() (out string) {
+	defer func() {
+		if r := recover(); r != nil {
+			out = fmt.Sprintf("delegations-panic: %v", r)
+		}
+	}()
+	var parts []string
+	for _, id := range accIDs {
+		dtos, err := g.st.GetDelegationsFrom(accAddr(id))
+		if err != nil {
+			parts = append(parts, fmt.Sprintf("%d:err(%v)", id, err))
+			continue
+		}
+		var l []string
+		for _, d := range dtos {
+			l = append(l, fmt.Sprintf("%s.%s.%s", idOfAddr(d.Validator), d.Stake, d.Token))
+		}
+		parts = append(parts, fmt.Sprintf("%d:[%s]", id, strings.Join(l, ";")))
+	}
+	return strings.Join(parts, " ")
 }
 
 const rootsUnstable = "not-compared:removed-validator-pending"
